@@ -87,11 +87,21 @@ def run(ctx):
         if fbits[3:7] != [('in', '_opcode', k) for k in range(4)]:
             shifts.pop('_opcode', None)
     pshift = {}
+    wsrc = lambda e: ('w', 16) if isinstance(e, tuple) and e[0] in ('entry', 'phi', 'modby') or is_call(e, r'read_u16$') else None
     for fld in ['_qr', '_opcode', '_rd']:
         for _, _, v in field_writes(hp, fld):
+            # which bits of the flags word the stored value consists of - whatever the spelling (>> k & m, & mask != 0, >= 0x8000, / and %)
+            b_ = BitEval(wsrc).bits(peel(v, casts=False))
+            b_ = list(b_) if b_ is not None else []
+            first = b_[0] if b_ else None
+            if isinstance(first, tuple) and first[0] == 'in' and first[1] == 'w':
+                width = 4 if fld == '_opcode' else 1
+                if b_[:width] == [('in', 'w', first[2] + k) for k in range(width)] and all(x == 0 for x in b_[width:]):
+                    pshift[fld] = first[2]
+                    continue
             for x in walk(v):
                 if isinstance(x, tuple) and x[0] == 'bin' and x[1] == 'Shr' and const_val(x[3]) is not None:
-                    pshift[fld] = const_val(x[3])
+                    pshift.setdefault(fld, const_val(x[3]))
     ok = all(f_ in shifts and f_ in pshift and pshift[f_] == shifts[f_] + 8 for f_ in ['_qr', '_opcode', '_rd']) and pshift.get('_qr') == 15 and pshift.get('_opcode') == 11 and pshift.get('_rd') == 8
     rep.check(r1, ok, 'header:flag-bits', 'parser reads QR/OPCODE/RD at bits %s of the flags word; serializer writes them at bits %s of the first flags byte' % (pshift, shifts), '%s:%d' % (hs.file, hs.line))
     rep.check(r1, len(wb) > 3 and wb[3] == ('const', 0), 'header:second-flag-byte', 'RA/Z/RCODE byte is 0')
@@ -118,11 +128,15 @@ def run(ctx):
     if ok:
         # loop header of the for over self.qd: the `next` call block
         nx = [b for b, t in pr.calls(r'Iterator>::next$|Iterator::next$') if 'qd' in short(pr.argv(b, 0))]
-        okl = len(nx) == 1
+        dom = pr.dominators()
+        # one loop over the questions doing both, or one loop each (same collection, same order): every push lies in a loop over
+        # self.qd that cannot iterate without it
+        heads = {name: [h_ for h_ in nx if h_ in dom[tgt] and h_ in pr.reachable(tgt)] for tgt, name in [(pq[0], 'question'), (prr[0], 'answer')]}
+        okl = len(nx) in (1, 2) and all(len(v_) == 1 for v_ in heads.values()) and set(heads['question'] + heads['answer']) == set(nx)
         if okl:
-            h = nx[0]
-            # from the loop body (Some edge) back to the header one must pass both pushes
+            # from the loop body (Some edge) back to the header one must pass the push
             for tgt, name in [(pq[0], 'question'), (prr[0], 'answer')]:
+                h = heads[name][0]
                 succs = pr.succ[h]
                 r = set()
                 for s in succs:
@@ -130,9 +144,8 @@ def run(ctx):
                 # the header reachable again without the push?  (exclude the exit path: it does not come back)
                 back = h in r
                 rep.check(r2, not back, 'per-question:' + name, 'the loop can iterate without pushing the %s: %s' % (name, back), pr.loc(tgt))
-            # pushes only inside the loop
-            dom = pr.dominators()
-            rep.check(r2, h in dom[pq[0]] and h in dom[prr[0]], 'pushes-in-loop', 'both pushes are inside the loop over the query\'s questions')
+            # pushes only inside the loop(s)
+            rep.check(r2, heads['question'][0] in dom[pq[0]] and heads['answer'][0] in dom[prr[0]], 'pushes-in-loop', 'both pushes are inside the loop over the query\'s questions')
         else:
             rep.bad(r2, 'loop', 'loop over self.qd not found')
     # the question echoed is the serialisation of the parsed question; the answer is qd.repl()
@@ -319,6 +332,12 @@ def run(ctx):
                 if calls_in(v, r'DNSPacket as proto::dissector::MPacket>::repl$'):
                     inner = peel(v[2][0], unwraps=False)
                     okret = isinstance(inner, tuple) and inner[0] == 'field' and not any(isinstance(x, tuple) and x[0] in ('modby', 'phi') for x in walk(inner))
+    if not okret:
+        # or the Option returned by DNSPacket::repl is handed back as it is (`return dns_repl`)
+        for rb in pf.return_blocks():
+            for alt in palts(pf.ret_value(rb), unwraps=False):
+                if is_call(alt, r'DNSPacket as proto::dissector::MPacket>::repl$'):
+                    okret = True
     rep.check(r5, okret, 'proto::repl:dns-reply-unmodified', 'the datagram reply is exactly the value returned by DNSPacket::repl: %s' % okret)
 
     # the serialised message is handed back whole: nothing shortens or edits the Vec between the serialiser and the return
@@ -359,6 +378,16 @@ def run(ctx):
                 al = palts(a, unwraps=False)
                 ok = bool(al) and all((isinstance(x, tuple) and x[0] == 'entry' and Fn.path_of(x[1])[-1:] == [('f', acc)]) or (is_call(x, r'PacketDissector::<T>::read_u16$') and acc in short(x)) for x in al)
             rep.check(r6, ok, '%s:%s-conversion' % (ty.split('::')[-1], fld), '%s <- %s (required: the code table applied to %s as accumulated)' % (fld, [short(w)[:80] for w in ws], acc), '%s:%d' % (f.file, f.line))
+            # ... and it is applied when, and only when, the record is complete: the store lies behind `state == End` and every
+            # path that reaches End passes it (a record serialised later carries the converted type/class)
+            wb = [b_ for b_, _, _ in field_writes(f, fld)]
+            ge = bool_edges(f, lambda d: is_call(peel(d, unwraps=False), r'PartialEq>::eq$|PartialEq::eq$') and 'state' in short(d) and 'End' in short(d), True)
+            if not ge:
+                # the same test written as a match on the state after the step (not the step dispatch itself, which has one edge per state)
+                ge = [e_ for e_ in value_edges(f, lambda k: isinstance(peel(k), tuple) and 'state' in short(k) and peel(k)[0] in ('entry', 'discr'), variant_index(F, '%s%sState' % (D, ty), 'End'))
+                      if len(f.succ[e_[0]]) <= 3]
+            okw = bool(wb) and bool(ge) and not f.must_pass(ge, wb) and all(not any(x in f.reachable(s_, removed_blocks=wb) for x in f.return_blocks()) for (_, s_) in ge)
+            rep.check(r6, okw, '%s:%s-at-End' % (ty.split('::')[-1], fld), '%s is stored exactly when the parser state is End: %s' % (fld, okw), f.loc(wb[0]) if wb else '')
     dispatch_sound(ctx, 'C14', 'a datagram reaches the DNS parser (after NO_MATCH)')
 
 
